@@ -427,7 +427,7 @@ func TestVerif_C15_Negotiation(t *testing.T) {
 	}, func(v *vfT) vfC15Case {
 		var c vfC15Case
 		c.Local = vfFamCGenLocal(v.R)
-		c.Offer, _ = vfFamCGenOffer(v.R, c.Local, false)
+		c.Offer, _ = vfFamCGenOffer(v.R, c.Local, false, false)
 		c.PreA = rapid.IntRange(0, 3).Draw(v.R, "preA") == 0
 		c.PreV = rapid.IntRange(0, 3).Draw(v.R, "preV") == 0
 		c.Reoffer = rapid.IntRange(0, 4).Draw(v.R, "reoffer") == 0
